@@ -63,6 +63,20 @@ var builders = []builder{
 	{"staged 0s:5,3s:40,6s:0 every 1s", func(j float64) (*api.Rates, error) {
 		return staged.CalculateStagedRate(j, time.Second, "0s:5,3s:40,6s:0", "none", nil)
 	}},
+	// ticks longer and shorter than a second
+	{"staged 0s:50,40s:400,80s:0 every 10s", func(j float64) (*api.Rates, error) {
+		return staged.CalculateStagedRate(j, 10*time.Second, "0s:50,40s:400,80s:0", "none", nil)
+	}},
+	{"staged 0s:5,1s:40 every 100ms", func(j float64) (*api.Rates, error) {
+		return staged.CalculateStagedRate(j, 100*time.Millisecond, "0s:5,1s:40", "none", nil)
+	}},
+	{"constant 1000/5m", func(j float64) (*api.Rates, error) { return constant.CalculateConstantRate(j, "1000/5m", "none") }},
+	{"ramp 0/10s-600/10s over 2m", func(j float64) (*api.Rates, error) {
+		return ramp.CalculateRampRate("0/10s", "600/10s", "none", 2*time.Minute, j)
+	}},
+	{"gaussian 50000 per 10m, peak 5m, sigma 2m, every 90s", func(j float64) (*api.Rates, error) {
+		return gaussian.CalculateGaussianRate(50000, j, 10*time.Minute, 90*time.Second, 5*time.Minute, 2*time.Minute, "", "none")
+	}},
 	{"ramp 0/1s-60/1s over 6s", func(j float64) (*api.Rates, error) {
 		return ramp.CalculateRampRate("0/1s", "60/1s", "none", 6*time.Second, j)
 	}},
@@ -198,6 +212,12 @@ func suite(length int) hlib.Suite {
 					fn := api.WithJitter(func(time.Time) int { v := sq.f(evals); evals++; return v }, j)
 					input := fmt.Sprintf("jitter=%v rates=%s random-script=%d (base %d digits, u in %v)", j, sq.name, code, len(uAlpha), uAlpha)
 					runCase(r, j, length, code, sq.f, func(int) int { return fn(now) }, rmax, &evals, input)
+					if code%len(uAlpha) == 0 && (sq.name == "const3" || sq.name == "burst" || sq.name == "const1000") {
+						// the same with ticks five minutes apart (what is carried does not expire)
+						evals = 0
+						fn = api.WithJitter(func(time.Time) int { v := sq.f(evals); evals++; return v }, j)
+						runCase(r, j, length, code, sq.f, func(k int) int { return fn(now.Add(time.Duration(k) * 5 * time.Minute)) }, rmax, &evals, input+" ticks 5m apart")
+					}
 					if code < 8 {
 						r.Distinct(fmt.Sprintf("%v %s %d", j, sq.name, code))
 					}
